@@ -107,8 +107,8 @@ theorem C16_initial_matching (degSeq : List Nat) (dimSeq : List (Nat × Nat)) (f
   · rename_i hflags
     have htop : (fm || !fd) = true := by
       cases fd <;> cases fm <;> simp_all
-    have hb0 : MBasic degSeq.length ⟨degSeq, [], true, picks⟩ := ⟨rfl, by simp⟩
-    have hu0 : MUse degSeq ⟨degSeq, [], true, picks⟩ := by
+    have hb0 : MBasic degSeq.length ⟨AL.keys (degToDict degSeq), degSeq, [], true, picks⟩ := ⟨rfl, by simp⟩
+    have hu0 : MUse degSeq ⟨AL.keys (degToDict degSeq), degSeq, [], true, picks⟩ := by
       intro _; simp [degOf]
     obtain ⟨b1, b2, b3⟩ := matchLoop_spec (degSeq := degSeq) hb0 h
     have hsizes : st.cfg.map List.length = sizesOfSeq dimSeq := by simpa using b2 htop
@@ -542,6 +542,19 @@ theorem C16_sample_hyg (labels : List Nat) (edges : Config) (t : OwnTape)
       subst hxi
       rw [hdeg i hi, e1 i hi, d1 i]
 
+/-- the generated sequence is a stream: the first `k` samples do not depend on how many samples are drawn afterwards
+(same initial configuration, same draws for the first `k` blocks) -/
+theorem C16_sequence_prefix (cfg fixed : Config) (labels : Option (List Nat)) (t : OwnTape)
+    (outs : List (List (Hye × Nat))) (k : Nat) (h : sampleFromConfig cfg fixed labels t = some outs) :
+    sampleFromConfig cfg fixed labels { t with thins := t.thins.take k } = some (outs.take k) := by
+  unfold sampleFromConfig at h ⊢
+  cases hm : mcmcRoutine cfg fixed t.burn t.thins with
+  | none => simp [hm] at h
+  | some ys =>
+    simp only [hm, Option.bind_some] at h
+    simp only [mcmcRoutine_take k hm, Option.bind_some]
+    exact outputsOf_take k h
+
 /-! ## seed -/
 
 /-- The repaired sampler draws only from generators built from its own seed: a run `sample()` of
@@ -580,12 +593,17 @@ example : mcmcRoutine [[1, 2, 3], [3, 4], [5, 6]] [[7, 8]] [⟨0, 1, [4, 1], tru
 example : degToDict [2, 0, 2, 1] = [(2, [0, 2]), (0, [1]), (1, [3])] := by decide
 
 -- C16_initial_matching: a matching pair (flag stays true, every node is used deg(n) times, residual degrees 0) ...
-example : (matchSequences [2, 2, 1, 1] [(3, 2)] true true [[0, 1], [3], [2, 0, 1]]).map
-    (fun st => (st.cfg, st.flag, st.resid)) = some ([[0, 1, 3], [2, 0, 1]], true, [0, 0, 0, 0]) := by decide
+-- (the third draw is the size-0 draw from the bucket of degree 2, which has become empty but is still a key)
+example : (matchSequences [2, 2, 1, 1] [(3, 2)] true true [[0, 1], [3], [], [2, 0, 1]]).map
+    (fun st => (st.cfg, st.flag, st.resid, st.keys)) =
+    some ([[0, 1, 3], [2, 0, 1]], true, [0, 0, 0, 0], [2, 1, 0]) := by decide
 -- ... and a pair with equal totals that the greedy construction cannot realise: top-up from degree-0 nodes,
 -- flag false, node 1 used twice although deg(1) = 1, size counts still respected
-example : (matchSequences [4, 1, 1] [(2, 3)] true true [[0], [2], [0], [1], [0], [1]]).map
-    (fun st => (st.cfg, st.flag, st.resid)) = some ([[0, 2], [0, 1], [0, 1]], false, [1, 0, 0]) := by decide
+example : (matchSequences [4, 1, 1] [(2, 3)] true true [[0], [2], [], [0], [1], [], [], [0], [], [1]]).map
+    (fun st => (st.cfg, st.flag, st.resid, st.keys)) =
+    some ([[0, 2], [0, 1], [0, 1]], false, [1, 0, 0], [4, 1, 3, 0, 2]) := by decide
+-- no node of degree 0 and no key 0 (`KeyError`): no output
+example : (extractHye [1] [1, 1, 1] 4 true true [[0, 1, 2]]).isNone = true := by decide
 
 -- C16_output_valid / C16_output_bounds(_labels): a zero weight is dropped, a duplicate is merged (weights summed),
 -- indices are mapped back to labels
@@ -597,11 +615,13 @@ example : outputStage [[2, 1], [0, 2], [3, 4]] [1, 2, 5] none = some [([1, 2], 1
 
 -- C16_sample_seqs: non-matching sequences, burn-in 1, thinning blocks of length 1 and 0, a duplicate and a zero weight
 example : sampleFromSeqs [4, 1, 1] [(2, 3)] true true []
-    ⟨[[0], [2], [0], [1], [0], [1]], [⟨0, 1, [1], true⟩], [[⟨1, 2, [1], true⟩], []], [[1, 2, 3], [0, 1, 1]]⟩ =
+    ⟨[[0], [2], [], [0], [1], [], [], [0], [], [1]], [⟨0, 1, [1], true⟩], [[⟨1, 2, [1], true⟩], []],
+      [[1, 2, 3], [0, 1, 1]]⟩ =
     some (false, [[([0, 1], 3), ([0, 2], 3)], [([0, 1], 1), ([0, 2], 1)]]) := by decide
 -- matching sequences, an accepted and a rejected proposal; degrees 2,2,1,1 and two hyperedges of size 3 throughout
 example : sampleFromSeqs [2, 2, 1, 1] [(3, 2)] true true []
-    ⟨[[0, 1], [3], [2, 0, 1]], [⟨0, 1, [2], true⟩], [[⟨1, 0, [2], true⟩], [⟨0, 1, [2], false⟩]], [[1, 2], [3, 1]]⟩ =
+    ⟨[[0, 1], [3], [], [2, 0, 1]], [⟨0, 1, [2], true⟩], [[⟨1, 0, [2], true⟩], [⟨0, 1, [2], false⟩]],
+      [[1, 2], [3, 1]]⟩ =
     some (true, [[([0, 1, 3], 1), ([0, 1, 2], 2)], [([0, 1, 3], 3), ([0, 1, 2], 1)]]) := by decide
 -- sampling from the model: sequences and one dyadic hyperedge delivered by the inner model
 example : sampleFromSeqs [1, 1, 1, 0] [(3, 1)] false false [[0, 3]] ⟨[[2, 0, 1]], [], [[], []], [[2, 1], [0, 4]]⟩ =
